@@ -12,6 +12,7 @@ import (
 	"github.com/zishang520/engine.io/v2/config"
 	"github.com/zishang520/engine.io/v2/types"
 
+	"verifh/fakenet"
 	"verifh/refcodec"
 	"verifh/rep"
 	"verifh/rig"
@@ -196,6 +197,12 @@ func genC09(rng *rand.Rand, allowSpin bool) c09Case {
 			c.Steps = append(c.Steps, st)
 			continue
 		}
+		if (c.Victim == "websocket" || c.Victim == "webtransport") && rng.IntN(6) == 0 {
+			st.Kind = "stall"
+			st.Desc = "the client stops reading while the application keeps sending (the server's writer blocks on a full connection)"
+			c.Steps = append(c.Steps, st)
+			continue
+		}
 		switch x := rng.IntN(10); {
 		case x < 5:
 			st.Kind = "http"
@@ -330,6 +337,23 @@ func runC09(c c09Case, rng *rand.Rand, r *rep.Report) (key, msg string, stats ma
 							key, msg = "c09-work-out-of-proportion:inflated-message", fmt.Sprintf("step %d: a compressed websocket message of a few kilobytes on the wire was inflated to %d bytes and delivered (maxHttpBufferSize 100000)", si, len(e.Str))
 							return
 						}
+					}
+				case "stall":
+					// from now on the victim takes no delivery and its connection holds 2 KiB: the
+					// server-side writer goroutine blocks in the middle of a frame with a batch in flight
+					var nc *fakenet.Conn
+					if victim.WS != nil {
+						nc, _ = victim.WS.UnderlyingConn().(*fakenet.Conn)
+					} else if victim.WTStream != nil {
+						nc = victim.WTStream.Conn
+					}
+					if vs := w.SocketByID(victim.Sid); nc != nil && vs != nil && vs.ReadyState() == "open" {
+						nc.LimitReceiveBuffer(2048)
+						nc.StallReads(true)
+						for k := 0; k < 6; k++ {
+							vs.Send(types.NewStringBufferString(strings.Repeat("echo ", 4000)), nil, nil)
+						}
+						stats["victims_stalled_with_a_blocked_writer"]++
 					}
 				case "bigpoll":
 					// the decoy session has no reader of its own: a response above the compression
@@ -468,7 +492,7 @@ func TestC09(t *testing.T) {
 		// the engine behind a types.HttpServer listening itself: HTTP/1.1, HTTP/2 (TLS) and HTTP/3 (QUIC) on loopback
 		netLanes(r, r.N(4, 64))
 	}
-	r.Rule("grammar-based hostile client scripts (1-8 steps) against a server that also carries a canary session: HTTP requests with mutated methods, transport/EIO/sid/j/b64 query values (absent, repeated, garbage, huge, another session's id), content types, odd Origin/Accept-Encoding headers, bodies that are random, empty, bit-flipped/truncated/doubled valid payloads, inflated or malformed v3 length prefixes, invalid UTF-8/base64, delimiter floods, chunked; WebSocket/WebTransport frames of every packet type in every phase; upgrade candidates opened with another EIO value followed by heartbeats; hostile WebSocket handshakes; 13 hostile first messages and a stream-less session on a real WebTransport server (QUIC on loopback); oracle: the process survives (each case journalled before it runs), handler panics recovered by net/http are counted, no step of <=64 KiB costs more than 1.5 s of CPU time, the canary still round-trips, and 90 s after everything closed no server goroutine is left in the bubble; distinct = script signature")
+	r.Rule("grammar-based hostile client scripts (1-8 steps) against a server that also carries a canary session: HTTP requests with mutated methods, transport/EIO/sid/j/b64 query values (absent, repeated, garbage, huge, another session's id), content types, odd Origin/Accept-Encoding headers, bodies that are random, empty, bit-flipped/truncated/doubled valid payloads, inflated or malformed v3 length prefixes, invalid UTF-8/base64, delimiter floods, chunked; WebSocket/WebTransport frames of every packet type in every phase; upgrade candidates opened with another EIO value followed by heartbeats; hostile WebSocket handshakes; clients that stop reading while the application keeps sending (the server's writer blocked on a full connection) followed by whatever comes next in the script (candidates that re-upgrade the session, frames, closes); 13 hostile first messages and a stream-less session on a real WebTransport server (QUIC on loopback); oracle: the process survives (each case journalled before it runs), handler panics recovered by net/http are counted, no step of <=64 KiB costs more than 1.5 s of CPU time, the canary still round-trips, and 90 s after everything closed no server goroutine is left in the bubble; distinct = script signature")
 	r.Assume("not coverage-guided: breadth comes from the grammar and the seed; 'out of proportion' is operationalised as > 1.5 s of process CPU time for an input of at most 64 KiB")
 	// a script that has not finished after a minute of real time (normal: milliseconds) is examined
 	// for a goroutine spinning in library code (rep.Guard)
